@@ -25,7 +25,7 @@ BASE_CONSTS = {
     "Exts": "{}", "Dests": "{}", "MaxCmds": 2, "MaxToks": 1, "LateExt": "FALSE", "Backends": '{"local"}', "EdgeLimit": 99,
 }
 GEN_CONSTS = {"MaxDeps": 2, "MaxUses": 2, "MaxEdges": 2, "MaxExt": 0, "MaxWrites": 0, "MaxRefs": 1, "FullJobs": "TRUE",
-              "UsedDefsOnly": "TRUE", "MinLen": 0}
+              "UsedDefsOnly": "TRUE", "Undefined": "FALSE", "DefMembers": "TRUE", "SameBase": "TRUE", "MinLen": 0}
 
 
 def tla_set(xs):
@@ -55,16 +55,29 @@ def parse_programs(out: str):
     return progs
 
 
-def generate(ctx, wd, name, consts, *, simulate=None, depth=60, seed=None):
-    """Run BatchDslGen (exhaustively, or in simulation mode) and return the programs it printed."""
+def universe_module(wd, base, name, inpaths):
+    """cfg files cannot hold records: the set of input paths is defined in a wrapper module"""
+    mod = f"{base}U_" + "".join(ch if ch.isalnum() else "_" for ch in name)
+    (wd / f"{mod}.tla").write_text(f"---- MODULE {mod} ----\nEXTENDS {base}\nU_InPaths == {tla_val(inpaths)}\n====\n")
+    return mod
+
+
+def generate(ctx, wd, name, consts, *, simulate=None, depth=60, seed=None, full_invariants=None, view=None, inpaths=None):
+    """Run BatchDslGen (exhaustively, or in simulation mode) and return the programs it printed.
+    full_invariants: explore GFullNext (every finished program is continued with Batch.run()) and check these
+    invariants on the way - the exhaustive specification check over exactly the programs handed to the harness."""
     cfg = f"Gen_{name}.cfg"
-    (wd / cfg).write_text(tlc.mk_cfg(init="GInit", next="GNext", constants=consts, invariants=["Emit"]))
-    res = tlc.run(wd, "BatchDslGen", cfg, workers=1, simulate=simulate, depth=depth if simulate else None, seed=seed,
-                  heap="4g")
-    if res.violations:
-        raise RuntimeError(f"program generation failed: {[v.name for v in res.violations]}")
+    full = full_invariants is not None
+    mod = "BatchDslGen"
+    if inpaths is not None:
+        mod = universe_module(wd, "BatchDslGen", name, inpaths)
+        consts = dict(consts, InPaths="<- U_InPaths")
+    (wd / cfg).write_text(tlc.mk_cfg(init="GInit", next="GFullNext" if full else "GNext", constants=consts,
+                                     invariants=list(full_invariants or []) + ["Emit"], view=view))
+    res = tlc.run(wd, mod, cfg, workers=min(ctx.workers, 4) if full else 1, simulate=simulate,
+                  depth=depth if simulate else None, seed=seed, heap="6g", coverage=full)
     progs = parse_programs(res.out)
-    if simulate:  # simulation revisits programs
+    if simulate or full:  # simulation revisits programs; several workers may print a state twice
         seen, uniq = set(), []
         for p in progs:
             k = json.dumps(p, sort_keys=True)
@@ -222,9 +235,10 @@ class Builder:
 
 
 # ------------------------------------------------------------------------------------------------------
-def run_local(prog, fails, workdir, *, seed=0):
+def run_local(prog, fails, workdir, *, seed=0, execute=True):
     """Build prog on a LocalBackend whose jobs append their id to a marker file and exit 1 if in `fails`;
-    returns the event list (build events + what Batch.run did)."""
+    returns the event list (build events + what Batch.run did).  execute=False: the backend is replaced by a
+    probe that only records the numbering Batch._async_run hands to it (no job is run)."""
     hb, backend, BatchException = api()
     workdir = Path(workdir)
     workdir.mkdir(parents=True, exist_ok=True)
@@ -236,7 +250,12 @@ def run_local(prog, fails, workdir, *, seed=0):
     class ProbeLocal(backend.LocalBackend):
         async def _async_run(self, batch, *a, **k):
             seen["jobs"] = list(batch._jobs)
+            if not execute:
+                return None
             return await super()._async_run(batch, *a, **k)
+
+        def __del__(self):  # Backend.__del__ would re-enter the event loop from the garbage collector
+            pass
 
     be = ProbeLocal(tmp_dir=str(workdir / "tmp"))
     try:
@@ -252,7 +271,7 @@ def run_local(prog, fails, workdir, *, seed=0):
         out = io.StringIO()
         try:
             with contextlib.redirect_stdout(out), contextlib.redirect_stderr(out):
-                bd.b.run()
+                bd.b.run(delete_scratch_on_exit=False)
         except BatchException as e:
             if "cycle" not in str(e):
                 raise
@@ -269,6 +288,8 @@ def run_local(prog, fails, workdir, *, seed=0):
         if [ids[j] for j in seen["jobs"]] != order:
             ev.append({"a": "ListOrderDiffers", "list": [ids[j] for j in seen["jobs"]], "order": order})
         ev.append({"a": "Number", "order": order, "job_ids": [bd.jobs[i]._job_id for i in order]})
+        if not execute:
+            return ev
         ev.append({"a": "StartLocal"})
         ran = [int(x) for x in logf.read_text().split()] if logf.exists() else []
         ranset = set(ran)
@@ -292,7 +313,7 @@ def run_local(prog, fails, workdir, *, seed=0):
 def _local_task(args):
     k, prog, fails, wd, seed = args
     try:
-        return k, run_local(prog, set(fails), wd, seed=seed), None
+        return k, run_local(prog, set(fails or ()), wd, seed=seed, execute=fails is not None), None
     except BaseException as e:  # machinery problem: reported by the parent
         import traceback
 
@@ -300,7 +321,8 @@ def _local_task(args):
 
 
 def run_local_many(tasks, workers):
-    """tasks: list of (key, prog, fails, workdir, seed) -> {key: events}; runs in forked worker processes."""
+    """tasks: list of (key, prog, fails | None = numbering only, workdir, seed) -> {key: events}; runs in forked
+    worker processes."""
     import multiprocessing as mp
 
     api()
@@ -325,6 +347,219 @@ def strip_events(ev):
     """events as written to the trace file (diagnostic fields removed)"""
     out = []
     for e in ev:
-        e = {k: v for k, v in e.items() if k not in ("exc", "job_ids")}
+        e = {k: v for k, v in e.items() if k not in ("exc", "job_ids", "always_run", "raw_command")}
         out.append(e)
+    return out
+
+
+# ------------------------------------------------------------------------------------------------------
+# ServiceBackend with a recording batch client (no network)
+def _service_backend():
+    """A real ServiceBackend object (constructed without credentials / network) whose batch client creates real
+    hailtop.batch_client.aioclient.Batch objects; submit() records the job specs instead of POSTing them."""
+    hb, backend, _ = api()
+    import hailtop.batch_client.aioclient as aioc
+
+    class RecBatch(aioc.Batch):
+        recorded = None
+
+        async def submit(self, *a, **k):
+            self.recorded = json.loads(json.dumps(self._job_specs))
+            self._id = 1
+            for j in self._jobs:  # what the real submit() does after the POSTs (first absolute job id = 1)
+                j._submit(1)
+            self._job_specs, self._jobs, self._in_update_job_id = [], [], 0
+            return self
+
+    class FakeClient:
+        def __init__(self):
+            self.batches = []
+
+        def create_batch(self, attributes=None, callback=None, token=None, cancel_after_n_failures=None):
+            b = RecBatch(self, None, attributes=attributes, callback=callback, token=token,
+                         cancel_after_n_failures=cancel_after_n_failures)
+            self.batches.append(b)
+            return b
+
+        async def close(self):
+            pass
+
+    class FakeFS:
+        async def close(self):
+            pass
+
+        async def makedirs(self, *a, **k):
+            pass
+
+        async def write(self, *a, **k):
+            pass
+
+    uploads = []
+
+    async def no_validate(uri, fs):
+        return None
+
+    async def record_copy(*, files, **kw):
+        uploads.extend(files)
+
+    # environment of the backend module: no bucket checks, no real upload, no progress bar
+    backend.validate_file = no_validate
+    backend.copy_from_dict = record_copy
+    backend.track = lambda it, **k: it
+
+    class ProbeService(backend.ServiceBackend):
+        def __del__(self):
+            pass
+
+    be = object.__new__(ProbeService)
+    client = FakeClient()
+    be._ServiceBackend__batch_client = client
+    be._token = None
+    be._billing_project = "verif"
+    be.remote_tmpdir = "gs://tmp-bucket/tmp dir"
+    be._requester_pays_fses = {None: FakeFS()}
+    be._ServiceBackend__fs = FakeFS()
+    be.regions = ["us-central1"]
+    return be, client, uploads
+
+
+def _split_command(cmd):
+    """The bash script the backend submits -> (symlink pairs, list of commands as raw text) or None if it does
+    not have the shape  flags / mkdir / symlinks / { {cmd} {cmd} ... }."""
+    lines = cmd.split("\n")
+    if len(lines) < 5 or lines[0] != "" or not lines[1].startswith("set -e") or not lines[2].startswith("mkdir -p "):
+        return None
+    links = []
+    if lines[3].strip():
+        lx = shlex.shlex(lines[3], posix=True, punctuation_chars=";")
+        lx.whitespace_split = True
+        toks = list(lx)
+        cur = []
+        for t in toks + [";"]:
+            if t == ";":
+                if cur:
+                    if len(cur) != 4 or cur[:2] != ["ln", "-sf"]:
+                        return None
+                    links.append({"src": cur[2], "dst": cur[3]})
+                cur = []
+            else:
+                cur.append(t)
+    body = "\n".join(lines[4:])
+    if body == "\n":  # a job without commands
+        return links, []
+    if not (body.startswith("{\n{\n") and body.endswith("\n}\n}\n")):
+        return None
+    inner = body[len("{\n{\n"):-len("\n}\n}\n")]
+    return links, inner.split("\n}\n{\n")
+
+
+def _bash_words(raws, env):
+    """Evaluate each raw token as bash would (quotes, ${BATCH_TMPDIR}); returns the list of word lists
+    (None for a token bash cannot parse)."""
+    if not raws:
+        return []
+    script = "".join(f"printf '%s\\0' {r}\nprintf '\\1\\n'\n" for r in raws)
+    p = subprocess.run(["bash", "-c", script], capture_output=True, env={"PATH": os.environ.get("PATH", ""), **env})
+    chunks = p.stdout.split(b"\x01\n")
+    if p.returncode == 0 and len(chunks) == len(raws) + 1 and chunks[-1] == b"":
+        return [[w.decode("utf-8", "replace") for w in c.split(b"\0")[:-1]] for c in chunks[:-1]]
+    out = []
+    for r in raws:  # a token broke the script: evaluate one by one
+        q = subprocess.run(["bash", "-c", f"printf '%s\\0' {r}"], capture_output=True, env={"PATH": os.environ.get("PATH", ""), **env})
+        out.append([w.decode("utf-8", "replace") for w in q.stdout.split(b"\0")[:-1]] if q.returncode == 0 else None)
+    return out
+
+
+def run_service(prog, *, seed=0, group_members=("a", "b")):
+    """Build prog with the real API on a ServiceBackend with a recording client, call Batch.run(), and return the
+    events (build events + numbering + one Submit event per recorded job spec)."""
+    hb, backend, BatchException = api()
+    be, client, uploads = _service_backend()
+    bd = Builder(be, seed=seed, decorate=True).build(prog, group_members=group_members)
+    ev = bd.events
+    if bd.aborted:
+        return ev
+    out = io.StringIO()
+    try:
+        with contextlib.redirect_stdout(out), contextlib.redirect_stderr(out), warnings.catch_warnings():
+            warnings.simplefilter("ignore")
+            bd.b.run(wait=False, disable_progress_bar=True)
+    except BatchException as e:
+        if "cycle" not in str(e):
+            raise
+        ev.append({"a": "Reject"})
+        for b in client.batches:
+            for spec in (b.recorded or b._job_specs):
+                ev.append({"a": "Submit", "j": 0, "rec": {"parents": [], "inputs": [], "outputs": [], "links": [], "cmds": []}})
+        return ev
+    order = sorted(bd.jobs, key=lambda i: (bd.jobs[i]._job_id is None, bd.jobs[i]._job_id))
+    ev.append({"a": "Number", "order": order})
+    if len(client.batches) != 1 or client.batches[0].recorded is None:
+        raise RuntimeError("nothing was submitted")
+    specs = client.batches[0].recorded
+    by_client_id = {}
+    for i, j in bd.jobs.items():
+        if j._client_job is None:
+            raise RuntimeError(f"job {i} was not submitted")
+        by_client_id[j._client_job._async_job._job_id] = i
+    envs = [dict((e["name"], e["value"]) for e in s.get("env", [])) for s in specs if s["job_id"] in by_client_id]
+    lroot = envs[0].get("BATCH_TMPDIR", "") if envs else ""
+    rroot = next((s["process"]["command"][-1] for s in specs if s.get("attributes", {}).get("name") == "remove_tmpdir"), "")
+    ev.append({"a": "StartService", "l": lroot, "r": rroot})
+    for s in sorted(specs, key=lambda s: s["job_id"]):
+        i = by_client_id.get(s["job_id"])
+        if i is None:
+            continue
+        env = dict((e["name"], e["value"]) for e in s.get("env", []))
+        cmdv = s["process"]["command"]
+        parsed = _split_command(cmdv[2]) if len(cmdv) == 3 and cmdv[1] == "-c" else None
+        links, cmds = parsed if parsed else ([], [])
+        prog_cmds = [e["toks"] for e in ev if e["a"] == "Command" and e["j"] == i and e["out"] == "ok"]
+        rec_cmds = []
+        for ci, text in enumerate(cmds):
+            raws = text.split("\t")
+            want = prog_cmds[ci] if ci < len(prog_cmds) and len(prog_cmds[ci]) == len(raws) else None
+            refpos = [k for k in range(len(raws)) if want is not None and want[k]["t"] == "ref"]
+            words = dict(zip(refpos, _bash_words([raws[k] for k in refpos], env)))
+            rec_cmds.append([{"raw": raws[k], "words": (words.get(k) or [])} for k in range(len(raws))])
+        rec = {
+            "parents": sorted(by_client_id[p] for p in s.get("in_update_parent_ids", []) if p in by_client_id),
+            "inputs": [{"src": f["from"], "dst": f["to"]} for f in s.get("input_files", [])],
+            "outputs": [{"src": f["from"], "dst": f["to"]} for f in s.get("output_files", [])],
+            "links": links, "cmds": rec_cmds,
+        }
+        ev.append({"a": "Submit", "j": i, "rec": rec, "always_run": s.get("always_run"), "raw_command": cmdv[2] if len(cmdv) == 3 else cmdv})
+    ev.append({"a": "EndService", "ups": [{"src": u["from"], "dst": u["to"]} for u in uploads]})
+    return ev
+
+
+def _service_task(args):
+    k, prog, seed, gm = args
+    try:
+        return k, run_service(prog, seed=seed, group_members=gm), None
+    except BaseException:
+        import traceback
+
+        return k, None, traceback.format_exc()
+
+
+def run_service_many(tasks, workers):
+    """tasks: list of (key, prog, seed, group_members) -> {key: events} (forked worker processes)"""
+    import multiprocessing as mp
+
+    api()
+    if workers <= 1 or len(tasks) < 8:
+        res = list(map(_service_task, tasks))
+    else:
+        pool = mp.get_context("fork").Pool(workers)
+        try:
+            res = pool.map(_service_task, tasks, chunksize=max(1, len(tasks) // (workers * 8)))
+        finally:
+            pool.close()
+            pool.join()
+    out = {}
+    for k, ev, err in res:
+        if err:
+            raise RuntimeError(f"service run {k} failed:\n{err}")
+        out[k] = ev
     return out
